@@ -254,7 +254,47 @@ def signal_handler_table():
     return rows
 
 
-GROUPS = ["cancel", "mismatch", "exit", "setdef", "escape", "signals", "sighandler", "placeholders", "xml"]
+def terminate_child_arms():
+    """unix.rs `terminate_child`: what the Stop and Continue arms of its request loop do, statement by statement, as
+    (guard, action) pairs — guard "" = unconditional."""
+    src = strip_comments(read("nextest-runner/src/runner/unix.rs"))
+    m = re.search(r"async fn terminate_child", src)
+    if not m: raise RuntimeError("unix.rs: terminate_child not found")
+    body = src[m.end():]
+    def arm(name, pat):
+        mm = re.search(pat, body)
+        if not mm: raise RuntimeError(f"terminate_child: {name} arm not found")
+        i = mm.end(); depth = 1; j = i
+        while depth and j < len(body):
+            depth += {"{": 1, "}": -1}.get(body[j], 0); j += 1
+        return re.sub(r"\s+", " ", body[i:j - 1]).strip()
+    def stmt(t, guard):
+        t = t.strip().replace(".as_mut()", "")
+        if not t: return []
+        r = re.fullmatch(r"(\w+)\.(pause|resume)\(\)", t)
+        if r: return [(guard, f"{r.group(1)}.{r.group(2)}")]
+        r = re.fullmatch(r"job_control_child\(child, JobControlEvent::(\w+)\)", t)
+        if r: return [(guard, f"job_control:{r.group(1)}")]
+        if re.fullmatch(r"let _ = sender\.send\(\(\)\)", t): return [(guard, "ack")]
+        raise RuntimeError(f"terminate_child: unrecognised statement `{t}`")
+    def parse(text):
+        out = []; rest = text
+        while rest.strip():
+            rest = rest.strip()
+            r = re.match(r"if (\w+)\.is_paused\(\) \{(.*?)\}", rest)
+            if r:
+                for t in r.group(2).split(";"): out += stmt(t, r.group(1) + ".is_paused")
+                rest = rest[r.end():]; continue
+            k = rest.find(";")
+            if k < 0: raise RuntimeError(f"terminate_child: unterminated statement `{rest[:60]}`")
+            out += stmt(rest[:k], ""); rest = rest[k + 1:]
+        return out
+    stop = parse(arm("Stop", r"RunUnitRequest::Signal\(SignalRequest::Stop\(sender\)\) => \{"))
+    cont = parse(arm("Continue", r"RunUnitRequest::Signal\(SignalRequest::Continue\) => \{"))
+    return stop, cont
+
+
+GROUPS = ["cancel", "mismatch", "exit", "setdef", "escape", "signals", "sighandler", "termchild", "placeholders", "xml"]
 
 
 def group_lines(g):
@@ -302,6 +342,12 @@ def group_lines(g):
         sigh = signal_handler_table()
         return ["/-- signal.rs (unix): every registered signal and the event `recv` turns it into (the debug-only SIGQUIT-as-info switch off) -/",
                 "def signalHandlerTable : List (String × String) := [" + ", ".join(f'("{a}", "{b}")' for a, b in sigh) + "]"]
+    if g == "termchild":
+        stop, cont = terminate_child_arms()
+        f = lambda rows: "[" + ", ".join(f'("{a}", "{b}")' for a, b in rows) + "]"
+        return ["/-- unix.rs `terminate_child`, the Stop and the Continue arm of its request loop: (guard, action) in order, guard \"\" = unconditional -/",
+                f"def terminateChildStopArm : List (String × String) := {f(stop)}",
+                f"def terminateChildContinueArm : List (String × String) := {f(cont)}"]
     if g == "placeholders":
         ph = junit_placeholders()
         return ["/-- junit.rs: the texts stored in place of a stream that does not exist -/",
